@@ -61,15 +61,14 @@ type Buffer struct {
 	// descriptor that one call has verified are the ones that it stores
 	// and returns, even when another Commit is made concurrently.
 	// It is acquired before mu.
-	commitMu         sync.Mutex
-	mu               sync.Mutex
-	buf              []byte
-	checkStartOffset int64
-	uuid             string
-	committed        bool
-	data             []byte // the content that was verified by Commit
-	desc             ociregistry.Descriptor
-	commitErr        error
+	commitMu  sync.Mutex
+	mu        sync.Mutex
+	buf       []byte
+	uuid      string
+	committed bool
+	data      []byte // the content that was verified by Commit
+	desc      ociregistry.Descriptor
+	commitErr error
 }
 
 // NewBuffer returns a buffer that calls commit with the
@@ -122,27 +121,44 @@ func (b *Buffer) GetBlob() (ociregistry.Descriptor, []byte, error) {
 }
 
 // Write implements io.Writer by writing some data to the blob.
-// setCheckStartOffset sets the offset that the next Write call
-// must start at (-1 for no check).
-func (b *Buffer) setCheckStartOffset(offset int64) {
-	b.mu.Lock()
-	defer b.mu.Unlock()
-	b.checkStartOffset = offset
+func (b *Buffer) Write(data []byte) (int, error) {
+	return b.writeAt(-1, data)
 }
 
-func (b *Buffer) Write(data []byte) (int, error) {
+// writeAt appends data to the blob, first checking that the
+// blob currently holds exactly offset bytes (-1 for no check).
+func (b *Buffer) writeAt(offset int64, data []byte) (int, error) {
 	b.mu.Lock()
 	defer b.mu.Unlock()
-	if offset := b.checkStartOffset; offset != -1 {
-		// Can't call Buffer.Size, since we are already holding the mutex.
-		if int64(len(b.buf)) != offset {
-			return 0, fmt.Errorf("invalid offset %d in resumed upload (actual offset %d): %w", offset, len(b.buf), ociregistry.ErrRangeInvalid)
-		}
-		// Only check on the first write, since it's the start offset.
-		b.checkStartOffset = -1
+	if offset != -1 && int64(len(b.buf)) != offset {
+		return 0, fmt.Errorf("invalid offset %d in resumed upload (actual offset %d): %w", offset, len(b.buf), ociregistry.ErrRangeInvalid)
 	}
 	b.buf = append(b.buf, data...)
 	return len(data), nil
+}
+
+// resumedWriter is the BlobWriter for an upload that has been resumed
+// at a given offset: the first Write made through it must start at that
+// offset. The check belongs to this writer, not to the upload,
+// so that two writers resumed on the same upload don't disarm
+// each other's check.
+type resumedWriter struct {
+	*Buffer
+	mu sync.Mutex
+	// offset holds the offset that the next Write call
+	// must start at (-1 for no check).
+	offset int64
+}
+
+func (w *resumedWriter) Write(data []byte) (int, error) {
+	w.mu.Lock()
+	defer w.mu.Unlock()
+	n, err := w.Buffer.writeAt(w.offset, data)
+	if err == nil {
+		// Only check on the first write, since it's the start offset.
+		w.offset = -1
+	}
+	return n, err
 }
 
 func newUUID() string {
